@@ -6,6 +6,7 @@ import MidoModel.Smf
 import MidoModel.MidiFileState
 import MidoModel.Backend
 import MidoModel.Syx
+import MidoModel.PortsSeq
 /- Text protocol helpers for the driver: parsing requests, printing canonical results. -/
 namespace Mido
 
@@ -234,6 +235,30 @@ def runBackend (ts : List String) : String :=
       | .ok (b', s) => ("ok " ++ s) :: go b' rest
       | .error e => ("err " ++ e.name) :: go b rest
   s!"backend {if b.name.isEmpty then "@" else b.name} {showOpt b.api} | " ++ " | ".intercalate (go b calls)
+
+/-! ports: `kind=dev autoreset=0 closed=0 queue=1,2 script=1,2:0;:1` -/
+def parseScript (s : String) : List (List Nat × Bool) :=
+  if s == "-" then [] else (s.splitOn ";").filterMap fun step =>
+    match step.splitOn ":" with
+    | [arr, c] => some ((splitComma arr).filterMap parseNat?, c == "1")
+    | _ => none
+
+def parsePort (ts : List String) : Port :=
+  let kv := parseKVs ts
+  let g := kvGet kv
+  { kind := if g "kind" == "echo" then .echo else .dev, closed := g "closed" == "1",
+    queue := if g "queue" == "-" then [] else (splitComma (g "queue")).filterMap parseNat?,
+    autoreset := g "autoreset" == "1", script := parseScript (g "script") }
+
+def LogEv.show : LogEv → String | .sent i => s!"s{i}" | .closed => "C"
+def ROut.show : ROut → String
+  | .msg i => s!"msg {i}" | .none => "none" | .raised e => "err " ++ e.name | .hang => "hang"
+def Ending.show : Ending → String | .normal => "normal" | .raised e => "err " ++ e.name | .hang => "hang"
+def LOut.show : LOut → String
+  | .unit => "ok" | .r o => o.show
+  | .yielded ms e => "yield " ++ commaList (ms.map toString) ++ " " ++ e.show
+def Port.showState (p : Port) : String :=
+  s!"closed={if p.closed then 1 else 0} queue={commaList (p.queue.map toString)} log={commaList (p.log.map LogEv.show)} sleeps={p.sleeps}"
 
 /-- run-length compression `x*n` of equal neighbours, joined by `;` -/
 def rle (xs : List String) : String :=
